@@ -209,7 +209,7 @@ pub fn report_failures(run: &mut Run, out: &Outcome, exec: &ExecOpts) {
 pub fn stats_json(s: &Stats) -> J {
     json!({
         "steps": s.steps, "commits": s.commits, "fresh_reads": s.reads, "reader_reads": s.reader_reads,
-        "reader_reads_after_placement": s.reader_reads_after_placement, "cursor_ops": s.cursor_ops,
+        "reader_reads_after_placement": s.reader_reads_after_placement, "versioned_batteries_through_open_readers": s.reader_versioned_batteries, "cursor_ops": s.cursor_ops,
         "cursor_ops_after_placement": s.cursor_ops_after_placement, "placements": s.placements,
         "compactions_that_changed_tables": s.compactions_changed, "reopens": s.reopens, "restores": s.restores,
         "checkpoints": s.checkpoints, "twin_readers_sharing_start": s.twin_readers,
